@@ -151,6 +151,31 @@ Theorem appended_later_set_executed_partial p rs st :
 Proof. exact (later_appends_l p rs st). Qed.
 Print Assumptions appended_later_set_executed_partial.
 
+(* ---------------------------------------------------------------- generator.Generate *)
+
+(* The roots handed to the plugin prepare functions, the generators and the plugin
+   generate functions are, for each of the three, the same list: no duplicates, every
+   registered root, and every root a registered root depends on strictly before it. *)
+Theorem generate_handover_dependency_order p ls : handover p = Some ls ->
+  exists l, ls = [l; l; l] /\ generate_roots p = Ok l /\ NoDup l /\
+    incl (s_regs (final_state p)) l /\
+    (forall x, In x l -> exists r, In r (s_regs (final_state p)) /\ reach (deps_of p) r x) /\
+    (forall u v, In u (s_regs (final_state p)) -> reach (deps_of p) u v -> u <> v -> before l v u).
+Proof. exact (handover_order_l p ls). Qed.
+Print Assumptions generate_handover_dependency_order.
+
+(* ... and it is the very order in which RunDSL prepared, validated and finalized them. *)
+Theorem generate_handover_is_evaluation_order p rs st :
+  exec_phase p = XDone rs st -> handover p = Some [rs; rs; rs].
+Proof. exact (handover_eval_order_l p rs st). Qed.
+Print Assumptions generate_handover_is_evaluation_order.
+
+(* Generate refuses to run exactly when the registered roots contain a cycle. *)
+Theorem generate_refuses_cycles p :
+  handover p = None <-> cyclic (deps_of p) (s_regs (final_state p)).
+Proof. exact (handover_none_l p). Qed.
+Print Assumptions generate_refuses_cycles.
+
 (* ---------------------------------------------------------------- non-vacuity *)
 
 Example later_append_runs :
@@ -165,6 +190,11 @@ Proof. vm_compute. repeat split. Qed.
 
 Example diamond_order :
   roots 4 (fun r => match r with 3 => [1; 2] | 1 => [0] | 2 => [0] | _ => [] end) [3; 2; 1; 0] = Ok [0; 2; 1; 3].
+Proof. vm_compute. reflexivity. Qed.
+
+(* a plugin root (1) that depends on the design root (0), registered first *)
+Example plugin_root_after_design :
+  handover (mkP [mkR [] [] false None false; mkR [0] [] false None false] [1; 0]) = Some [[0; 1]; [0; 1]; [0; 1]].
 Proof. vm_compute. reflexivity. Qed.
 
 Example self_dependency_is_a_cycle : roots 1 (fun _ => [0]) [0] = Cycle.
